@@ -301,7 +301,11 @@ func runC13(c *mc.Ctx) {
 	// value is below every filter value.
 	for key := 0; key < 2; key++ {
 		for _, pm := range []c13PM{{19, 784931}, {2, 5}, {32, 1 << 32}, {0, 3}} {
-			for _, n := range mc.Pick(c, []int{5, 6, 8, 16, 33}, []int{5, 6, 7, 8, 9, 16, 17, 33, 100}) {
+			sizes := mc.Pick(c, []int{5, 6, 8, 16, 33}, []int{5, 6, 7, 8, 9, 16, 17, 33, 100})
+			if pm.P == 19 { // size ladder (one configuration): counts beyond 8, 10, 15 and 16 bits
+				sizes = append(sizes, mc.Pick(c, []int{257, 1025}, []int{257, 1025, 32769, 65537})...)
+			}
+			for _, n := range sizes {
 				var items [][]byte
 				for i := 0; i < n; i++ {
 					items = append(items, []byte(fmt.Sprintf("m-%d", i)))
